@@ -33,7 +33,7 @@ RULE = (
     "cross-directory rename as OLD+NEW / REMOVED+ADDED, recursive and non-recursive watch; parent-MODIFIED on only for "
     "bursts <= 2; M: coalesced item placed at its last / first change, flags of earlier batches repeated or not, recursive and non-recursive watch, "
     "suppress_history off/on), enumerate EVERY cut of that sequence into batches (all 2^(n-1) "
-    "cuts for n <= 10 records, else all cuts with <= 3 cut points - reported per part) x two delivery modes (all batches after "
+    "cuts for n <= 12 records, else all cuts with <= 3 cut points - reported per part) x two delivery modes (all batches after "
     "the last operation / each batch right after the operation that produced its last record; identical schedules are "
     "run once); one execution = fresh scratch tree + fresh real emitter + the schedule; oracles: C01 replay equality, "
     "per-batch translation contract (rename halves in one batch = one moved event with both paths + synthetic moved "
@@ -78,7 +78,8 @@ ASSUMPTIONS = [
     "record; other delivery points between operations are not enumerated",
     "the replay oracle is fsops.replay_events (C01): created = ensure present with the event's flavour, deleted = remove "
     "the subtree whatever the flavour, moved = move the subtree keeping the replay's kinds (unknown source = arrival); "
-    "for a non-recursive watch both sides are restricted to the root's direct children",
+    "for a non-recursive watch both sides are restricted to the root's direct children and a moved event between a direct "
+    "child and a deeper level is replayed as the departure / arrival of the direct child",
     "flavour/descendant expectations of the per-batch contract are only demanded when the object the record is about "
     "is still at that path when the batch is processed (both emitters stat the path at processing time)",
     "part D: extra padding between records (0..3 DWORDs beyond the DWORD alignment) and 16 bytes after n_bytes are zero "
@@ -116,6 +117,7 @@ class Hist:
             ids[p] = new()
         self.states = [(dict(tree), dict(ids))]
         self.effects = []
+        outside = []          # entries moved out so far: (kind, ident, {relative path: (kind, ident)})
         for op in self.ops:
             k = op[0]
             eff = []
@@ -166,10 +168,18 @@ class Hist:
                 eff.append(("rename", a, b, kind, ident, victim))
             elif k == "move_out":
                 a = op[1]
-                for p in [p for p in tree if inside(p, a)]:
-                    del tree[p]
-                    del ids[p]
+                sub = {p[len(a) + 1:]: (tree.pop(p), ids.pop(p)) for p in [p for p in tree if inside(p, a)]}
+                outside.append((tree[a], ids[a], sub))
                 eff.append(("depart", a, tree.pop(a), ids.pop(a)))
+            elif k == "move_back":
+                # the op[1]-th entry that was moved out comes back (same object, same inode) at path op[2]
+                kind, ident, sub = outside[op[1]]
+                tree[op[2]] = kind
+                ids[op[2]] = ident
+                for q, (kk, ii) in sub.items():
+                    tree[op[2] + "/" + q] = kk
+                    ids[op[2] + "/" + q] = ii
+                eff.append(("arrive", op[2], kind, ident))
             elif k == "move_in_file":
                 tree[op[1]] = "f"
                 ids[op[1]] = new()
@@ -462,6 +472,24 @@ def _top(t):
     return {p: k for p, k in t.items() if "/" not in p}
 
 
+def flat_view(evs):
+    """What a stream means for the root's direct children (non-recursive watch): a move to a deeper level is a
+    departure, a move from a deeper level an arrival; events wholly below the direct children say nothing."""
+    out = []
+    for e in evs:
+        deep_src = e[2] is not None and "/" in e[2]
+        deep_dst = e[3] is not None and "/" in e[3]
+        if _kindname(e[1]) == "Moved" and (deep_src != deep_dst):
+            flav = "Dir" if e[4] else "File"
+            if deep_dst:
+                out.append((e[0], flav + "DeletedEvent", e[2], None) + tuple(e[4:]))
+            else:
+                out.append((e[0], flav + "CreatedEvent", e[3], None) + tuple(e[4:]))
+        elif not (deep_src or deep_dst):
+            out.append(e)
+    return out
+
+
 def common_checks(h, res, recursive, layer):
     """Exceptions, model sanity, root deletion, C01 replay.  Returns list of (clause, message, detail)."""
     out = []
@@ -483,7 +511,7 @@ def common_checks(h, res, recursive, layer):
         out.append(("INFRA-model", f"reference model {sorted(h.states[-1][0].items())} != disk {sorted(res['final'].items())}", None))
         return out
     try:
-        got = fsops.replay_events(h.tree0, evs, recursive)
+        got = fsops.replay_events(h.tree0, evs if recursive else flat_view(evs), recursive)
     except Exception as e:  # noqa: BLE001 - e.g. a moved event whose destination contains its own source
         out.append(("unreplayable", f"the event stream cannot be replayed ({type(e).__name__}: {e}): a moved event is "
                                     f"inconsistent with the events before it", None))
@@ -679,7 +707,7 @@ def mac_contract(h, notifs, res, recursive, place="last"):
                 if not visible(p, None):
                     continue
                 cd = not recursive and kind == "d"
-                if eff[0] == "depart":
+                if eff[0] == "depart" and ids.get(p) != ident:      # (not: moved out and back to the same path meanwhile)
                     if not 1 <= len(find("Deleted", p, None)) <= sum(1 for k in per_item if k[0] == p):
                         out.append(("table: move out -> no deleted event",
                                     f"{where}: expected one deleted event for {p!r}; events: {shown}", cd))
@@ -789,6 +817,21 @@ def _merge_splits(notifs, steps):
     return tuple(tuple(s) for s in steps), changed
 
 
+def _stale_record(h, notifs, steps):
+    """Is some ADDED / RENAMED_NEW record processed when its path no longer holds the object it is about?"""
+    done = 0
+    for st in steps:
+        if st[0] == "op":
+            done += 1
+            continue
+        ids = h.states[done][1]
+        for j in range(st[1], st[2]):
+            (act, name), eff = notifs[j][1], notifs[j][2]
+            if act in (ADDED, NEW) and ids.get(name) != (eff[4] if eff[0] == "rename" else eff[3]):
+                return True
+    return False
+
+
 def classify_win(h, notifs, steps, res, detail, recursive):
     merged, changed = _merge_splits(notifs, steps)
     if changed:
@@ -797,12 +840,15 @@ def classify_win(h, notifs, steps, res, detail, recursive):
         if not bad:
             return SPLIT_FP
         detail = bad[0][2]
-    if detail["wrong"] and not detail["missing"] and not detail["extra"]:
+    stale = _stale_record(h, notifs, merged)
+    if stale and detail["wrong"] and not detail["missing"] and not detail["extra"]:
         return LATE_FP         # only the kind differs (cheap rule; the general case is decided by the run below)
     if tuple(merged) != _prompt_schedule(notifs, len(h.ops)):
         r3 = exec_win(h, notifs, _prompt_schedule(notifs, len(h.ops)), recursive)
         if not [c for c in common_checks(h, r3, recursive, "win") if c[0] in ("replay-mismatch", "unreplayable", "exception")]:
-            return LATE_FP     # the same records processed right after their operation replay correctly
+            # the same records processed right after their operation replay correctly
+            return LATE_FP if stale else ("win: replay-mismatch only when the records of several operations are processed "
+                                          "together (unclassified)")
     return (f"win: replay-mismatch unclassified [{'recursive' if recursive else 'non-recursive'}; missing={bool(detail['missing'])} "
             f"stale={bool(detail['extra'])} wrong-kind={bool(detail['wrong'])}]")
 
@@ -824,8 +870,7 @@ def classify_mac(h, notifs, steps, res, detail, recursive, suppress_history=Fals
         # counterfactual: the same schedule on a recursive watch, filtered as the property demands (events about
         # direct children of the root); if that replays correctly the non-recursive filter is the cause
         r2 = exec_mac(h, notifs, steps, True, suppress_history, place)
-        evs = [e for e in r2["events"] if (e[2] is not None and "/" not in e[2]) or (e[3] is not None and "/" not in e[3])]
-        if r2["error"] is None and _top(fsops.replay_events(h.tree0, evs, False)) == _top(r2["final"]):
+        if r2["error"] is None and _top(fsops.replay_events(h.tree0, flat_view(r2["events"]), False)) == _top(r2["final"]):
             return FILTER_FP
     for st in steps:
         if st[0] != "batch":
@@ -1054,7 +1099,7 @@ def _job(args):
     return acc
 
 
-def history_part(ctx, pool, layer, cfg, trees, n, *, root_delete=False, cap_n=10, label):
+def history_part(ctx, pool, layer, cfg, trees, n, *, root_delete=False, cap_n=12, label):
     jobs = []
     for t in trees:
         m = 1 if n <= 1 else (2 if n == 2 else 12)
